@@ -8,6 +8,21 @@ From Coq Require Import NArith List Bool Arith.
 From Qv Require Import gen.Tables EscapeModel TmplModel TparseModel TrenderModel TrenderProofs.
 Import ListNotations.
 
+(* TmplModel.get_key, with the array index compared in N before it becomes a nat (the extracted nat is unary) *)
+Definition jv_get_key (v : jv) (key : list N) : option jv :=
+  match v with
+  | JArr l => let i := fast_index key in if N.ltb i (N.of_nat (length l)) then defined (nth_error l (N.to_nat i)) else None
+  | _ => get_key v key
+  end.
+(* TmplModel.sort_set orders arrays of naturals / of strings and objects by key (the C02 domain); other arrays
+   are left as they are here (arrays of objects keep their order in the C++; mixed arrays are not generated) *)
+Definition jv_sort (asc : bool) (v : jv) : jv :=
+  match v with
+  | JArr l =>
+    if forallb (fun x => match x with JNat _ => true | _ => false end) l ||
+       forallb (fun x => match x with JStr _ => true | _ => false end) l then sort_set asc v else v
+  | _ => sort_set asc v
+  end.
 Definition jv_members (v : jv) : list (option jv * list N) := map (fun m => (Some (fst m), snd m)) (members v).
 Definition jv_text (auto : bool) (w : N) (escaped : bool) (v : jv) : option (list N) :=
   value_text (if escaped then var_text_cfg auto w else (fun s => s)) v.
@@ -16,5 +31,5 @@ Definition const_cond (k : nat) (ex : list qexpr) (items : list (item jv)) : opt
 
 (* parse the text with the parser model, render the tree with the renderer model *)
 Definition render_jv (auto : bool) (w : N) (content : list N) (root : jv) : rres (list N) :=
-  render_all jv get_key jv_members (jv_text auto w) char_and_length (fun v k => group_by k v) sort_set
+  render_all jv jv_get_key jv_members (jv_text auto w) char_and_length (fun v k => group_by k v) jv_sort
              (var_text_cfg auto w) const_math const_cond w content root.
